@@ -52,6 +52,7 @@ type Plan struct {
 	Compress  bool          `json:"lz4"`
 	Setup     []pager.WalTx `json:"setup"`
 	SetupCkpt int           `json:"setup_ckpt"` // WAL: checkpoint kind after setup, -1 none
+	LateWAL   bool          `json:"late_wal,omitempty"` // WAL: the database is built in DELETE mode and switched to WAL right before the operation
 	Op        Op            `json:"op"`
 	Follow    pager.WalTx   `json:"follow"`
 }
@@ -65,6 +66,7 @@ func genPlan(t *rapid.T) Plan {
 		SetupCkpt: rapid.IntRange(-1, 3).Draw(t, "setup_ckpt"),
 	}
 	ns := rapid.IntRange(0, 3).Draw(t, "nsetup")
+	p.LateWAL = p.Mode == pager.WAL && ns > 0 && rapid.IntRange(0, 2).Draw(t, "late_wal") == 0
 	txs := gen.Txs(t, ns+2, 400)
 	for i := 0; i < ns; i++ {
 		tx := pager.WalTx{Tx: txs[i]}
@@ -75,6 +77,10 @@ func genPlan(t *rapid.T) Plan {
 	p.Op.Tx.BEChecksum = rapid.Bool().Draw(t, "be")
 	if rapid.IntRange(0, 3).Draw(t, "sf") == 0 {
 		p.Op.Tx.SpillFrames = rapid.IntRange(1, 3).Draw(t, "spillframes")
+	}
+	if len(p.Op.Tx.Writes) >= 3 && rapid.Bool().Draw(t, "force_spill") {
+		// multi-segment journals (and WAL spills) are where recovery has most to get wrong
+		p.Op.Tx.SpillAfter = rapid.IntRange(1, 3).Draw(t, "spill_after")
 	}
 	p.Follow = pager.WalTx{Tx: txs[ns+1]}
 	p.Follow.Rollback, p.Follow.NoWrite = false, false
@@ -242,10 +248,27 @@ func runPlan(c *pbt.Case, p Plan) {
 	}
 	images := map[ref.Pos]*ref.Image{}
 	for i, tx := range p.Setup {
-		if _, err := exec(conn, tx); err != nil {
+		var err error
+		if p.LateWAL {
+			conn.JournalMode = pager.Delete
+			_, err = conn.ExecRollbackTx(tx.Tx)
+			conn.JournalMode = p.Mode
+		} else {
+			_, err = exec(conn, tx)
+		}
+		if err != nil {
 			c.Failf("C05/setup", "setup transaction %d refused: %v", i, err)
 		}
 		images[n.Pos(name)] = model.Img.Clone()
+	}
+	if p.LateWAL && model.Img.N() > 0 {
+		// PRAGMA journal_mode=WAL on an existing database: a journal-mode transaction
+		// that rewrites page 1 only; the newest LTX file then carries no WAL position
+		if _, err := conn.SwitchToWAL(pager.Tx{NewSize: model.Img.N(), Fill: 9}); err != nil {
+			c.Failf("C05/setup", "switch to WAL refused: %v", err)
+		}
+		images[n.Pos(name)] = model.Img.Clone()
+		c.Label("late-wal-switch")
 	}
 	if p.Mode == pager.WAL && p.SetupCkpt >= 0 && model.Img.N() > 0 {
 		_, _ = conn.Checkpoint(p.SetupCkpt)
